@@ -321,7 +321,7 @@ func ZZ_S08b_CancelWaits() {
 		rl.TryAcquirePermit() // the next permit is a long wait away
 		inner = rl
 	} else {
-		bh := bulkhead.Builder[int](1).WithMaxWaitTime(time.Duration(1) << 33).Build()
+		bh := bulkhead.Builder[int](1).WithMaxWaitTime(time.Duration(1) << 33).OnFull(func(e failsafe.ExecutionEvent[int]) { zzvrt.CtrAdd("onFull", 1) }).Build()
 		bh.TryAcquirePermit() // full: the execution has to wait
 		inner = bh
 	}
@@ -331,8 +331,16 @@ func ZZ_S08b_CancelWaits() {
 		return 0, errA
 	}
 	var err error
-	viaResult := zzvrt.Choose("source-is-ExecutionResult.Cancel", 2) == 1
-	if viaResult {
+	src := zzvrt.Choose("source", 3) // 0: context cancel (retry outside), 1: ExecutionResult.Cancel, 2: context deadline (waiting policy alone)
+	viaResult := src == 1
+	if src == 2 {
+		// the caller's context reaches its deadline long before the max wait time: the waiting policy is the only policy,
+		// whatever it returns is what the caller gets
+		dctx, dcancel := context.WithTimeout(context.Background(), c)
+		zzvrt.CellSet("firedAt", zzvrt.Now()+int64(c))
+		_, err = failsafe.NewExecutor[int](inner).WithContext(dctx).GetWithExecution(fn)
+		dcancel()
+	} else if viaResult {
 		// the waiting policy is outermost: whatever it returns is what the caller gets
 		res := failsafe.NewExecutor[int](inner, rp).GetWithExecutionAsync(fn)
 		zzvrt.Sleep(c)
@@ -349,7 +357,10 @@ func ZZ_S08b_CancelWaits() {
 	}
 	end := zzvrt.Now()
 	zzvrt.Quiesce()
-	if viaResult {
+	if src == 2 {
+		zzvrt.Assert(errors.Is(err, context.DeadlineExceeded), "cancel: a context deadline reached during a policy's wait is reported as context.DeadlineExceeded")
+		zzvrt.Assert(zzvrt.CtrGet("onFull") == 0, "cancel: a wait ended by the context's deadline is not reported as a full bulkhead")
+	} else if viaResult {
 		zzvrt.Assert(errors.Is(err, failsafe.ErrExecutionCanceled), "cancel: ExecutionResult.Cancel during a policy's wait is reported as ErrExecutionCanceled")
 	} else {
 		zzvrt.Assert(errors.Is(err, context.Canceled), "cancel: a waiting policy observes the cancellation and reports context.Canceled")
